@@ -1,6 +1,7 @@
 SPECIFICATION MCSpec
 CONSTANT Procs = {"p1", "p2"}
 CONSTANT FixF6 = FALSE
+CONSTANT FixF21 = TRUE
 INVARIANT TypeOK
 INVARIANT OneBodyAtATime
 INVARIANT NoBodyAfterDone
